@@ -1,7 +1,7 @@
 #!/bin/bash
 # usage: tools/run_all.sh [tier] [seed]   runs every registered check, prints one status line each
 tier=${1:-quick}; seed=${2:-0}
-cd /verif
+cd "$(dirname "$0")/.." || exit 2
 for i in 01 02 03 04 05 06 07 08 09 10 11 12 13 14 15 16 17 18 19 20; do
   t0=$(date +%s)
   out=$(VERIF_SEED=$seed ./check C$i $tier 2>&1); rc=$?
